@@ -24,7 +24,8 @@ def qRowAgrees (e : Str × Option (Nat × Nat)) : Bool :=
       | some (n, s) => [(['a'], n, s)])
 
 /-- The live `parse_accept_header` (with the live `_q_value_re`, `float` and range check) and the
-model agree on every q text of length ≤ 4 over the alphabet `-.015x` — 1554 strings, including
+model agree on every q text of length ≤ 3 over the alphabet `-.015x` and the length-4 texts
+starting `0.`, `1.`, `-0`, `-1` — 402 strings, including
 all the malformed, negative and `> 1` shapes of the property (`decide` over the regenerated table;
 an edit of the regex or of a comparison in the range check changes a row). -/
 theorem q_table_agrees : Gen.AcceptTbl.qTable.all qRowAgrees = true := by decide +kernel
@@ -288,9 +289,9 @@ example : parseQ "0.001".toList = some ⟨1, 3⟩ ∧ parseQ "1.000".toList = so
 whose (stripped) text fails `_q_value_re` or the range check. -/
 theorem item_dropped_iff (item : Str) (opts : List (Str × Str)) :
     acceptItem item opts = none ↔
-      ∃ qs, dictGet opts "q".toList = some qs ∧ parseQ (Py.strip qs) = none := by
+      ∃ qs, dictGet opts qKey = some qs ∧ parseQ (Py.strip qs) = none := by
   unfold acceptItem
-  cases hq : dictGet opts "q".toList with
+  cases hq : dictGet opts qKey with
   | none => simp
   | some qs =>
     cases hp : parseQ (Py.strip qs) <;> simp [hp]
@@ -300,13 +301,13 @@ header does not change the parsed result (for any class, before and after sortin
 `_partial`: stated for items whose `q` parameter survived `parse_options_header`; see
 `invalid_q_ignored_full_false` for the inputs this excludes. -/
 theorem invalid_q_ignored_partial (item : Str) (opts : List (Str × Str)) (qs : Str)
-    (hq : dictGet opts "q".toList = some qs) (hbad : parseQ (Py.strip qs) = none)
+    (hq : dictGet opts qKey = some qs) (hbad : parseQ (Py.strip qs) = none)
     (l1 l2 : List (Str × List (Str × Str))) :
     acceptItems (l1 ++ (item, opts) :: l2) = acceptItems (l1 ++ l2) := by
   have : acceptItem item opts = none := (item_dropped_iff item opts).mpr ⟨qs, hq, hbad⟩
   simp [acceptItems, List.filterMap_append, this]
 
-example : dictGet [("q".toList, "1.5".toList)] "q".toList = some "1.5".toList ∧
+example : dictGet [(qKey, "1.5".toList)] qKey = some "1.5".toList ∧
     parseQ (Py.strip "1.5".toList) = none := by decide
 
 /-- the full-strength reading of "items with malformed q are ignored" on header text:
